@@ -99,12 +99,12 @@ fn emit_value_case(rng: &mut Rng, family: &str, n: usize, re: Vec<i64>, im: Vec<
   }));
 }
 
-fn gen_value_cases(rng: &mut Rng, ncases: usize, max_side: usize) {
+fn gen_value_cases(rng: &mut Rng, ncases: usize, max_side: usize, forced: &[usize]) {
   let families = ["random", "sparse", "rank1", "diag", "perm", "diag_uneq", "block"];
-  for case in 0..ncases {
-    // sides: all small sides first, then random up to max_side
-    let n = if case < 2 * max_side.min(12) { 1 + case / 2 } else { 1 + rng.below(max_side) };
-    let family = families[case % families.len()];
+  for case in 0..ncases + forced.len() {
+    // sides: all small sides first, then random up to max_side; finally the forced large sides (the property says 1..40) with dense content
+    let n = if case >= ncases { forced[case - ncases] } else if case < 2 * max_side.min(12) { 1 + case / 2 } else { 1 + rng.below(max_side) };
+    let family = if case >= ncases { ["random", "random", "perm", "rank1"][(case - ncases) % 4] } else { families[case % families.len()] };
     let mut re = vec![0i64; n * n];
     let mut im = vec![0i64; n * n];
     let put = |re: &mut Vec<i64>, im: &mut Vec<i64>, k: usize, m: i64, u: (i64, i64, i64)| {
@@ -353,7 +353,7 @@ fn setup_cases(rng: &mut Rng, ncases: usize) {
 fn extreme_cases() {
   let base: Vec<C> = vec![C::new(1.0, 0.0), C::new(0.5, 0.0), C::new(0.25, 0.0), C::new(2.0, 1.0)];
   let mut rows: Vec<Value> = vec![];
-  for e in [0i32, -60, -70, -80, -100, 60, 70, 80, 160] {
+  for e in [0i32, -60, -70, -74, -80, -100, 60, 70, 74, 80, 160] {
     let s = 10f64.powi(e);
     let a: Vec<C> = base.iter().map(|z| z * s).collect();
     rows.push(json!({"scale_exp10": e, "result": kjson(&a)}));
@@ -371,7 +371,9 @@ pub fn run(args: &[String]) {
   let mut rng = Rng::new(seed);
   length_cases(&mut rng, max_len);
   extreme_cases();
-  gen_value_cases(&mut rng, ncases, max_side);
+  let nbig = arg_u64(args, 5, 3) as usize;
+  let bigs: Vec<usize> = [40usize, 24, 32, 36, 28, 40, 33, 25, 39, 30].iter().cloned().take(nbig).collect();
+  gen_value_cases(&mut rng, ncases, max_side, &bigs);
   float_cases(&mut rng, ncases / 2 + 4, max_side);
   setup_cases(&mut rng, nsetup);
 }
